@@ -1026,6 +1026,13 @@ func Script(asserts []*Term, extraDecl []string) (string, []*Term) {
 }
 
 func ScriptSel(asserts []*Term, extraDecl []string) (string, []*Term, []SelRef) {
+	return ScriptOpt(asserts, extraDecl, false)
+}
+
+// ScriptOpt: with dropAxioms the defining axioms of floating-point result
+// variables are omitted (the results become unconstrained: an abstraction
+// under which only unsat may be trusted).
+func ScriptOpt(asserts []*Term, extraDecl []string, dropAxioms bool) (string, []*Term, []SelRef) {
 	// gather cone (including axioms of variables)
 	refs := map[int]int{}
 	var order []*Term
@@ -1049,7 +1056,7 @@ func ScriptSel(asserts []*Term, extraDecl []string) (string, []*Term, []SelRef) 
 		}
 		if t.Op == OpVar {
 			vars = append(vars, t)
-			if t.Axiom != nil {
+			if t.Axiom != nil && !dropAxioms {
 				roots = append(roots, t.Axiom)
 			}
 		}
@@ -1193,4 +1200,117 @@ func printSpecial(sb *strings.Builder, t *Term, emit func(*Term)) {
 	default:
 		panic("printSpecial: " + t.Name)
 	}
+}
+
+// termVars returns the ids of the free variables of t (including variables of
+// their defining axioms), memoised.
+var varsMemo = map[int]map[int]bool{}
+
+func termVars(t *Term) map[int]bool {
+	if m, ok := varsMemo[t.ID]; ok {
+		return m
+	}
+	m := map[int]bool{}
+	varsMemo[t.ID] = m
+	if t.Op == OpVar {
+		m[t.ID] = true
+		if t.Axiom != nil {
+			for k := range termVars(t.Axiom) {
+				m[k] = true
+			}
+		}
+		return m
+	}
+	if t.Op == OpUF && len(t.Args) == 0 {
+		return m
+	}
+	for _, a := range t.Args {
+		for k := range termVars(a) {
+			m[k] = true
+		}
+	}
+	if t.Op == OpUF {
+		// applications of the same uninterpreted function are related by congruence
+		m[-hashName(t.Name)] = true
+	}
+	return m
+}
+
+func hashName(s string) int {
+	h := 7
+	for i := 0; i < len(s); i++ {
+		h = h*31 + int(s[i])
+		h &= 0xfffffff
+	}
+	return h + 1
+}
+
+// slicePC keeps the conjuncts of pc that are (transitively) connected to goal
+// through shared variables.
+func slicePC(pc []*Term, goal *Term) []*Term {
+	live := map[int]bool{}
+	for k := range termVars(goal) {
+		live[k] = true
+	}
+	keep := make([]bool, len(pc))
+	vs := make([]map[int]bool, len(pc))
+	for i, c := range pc {
+		vs[i] = termVars(c)
+	}
+	changed := true
+	for changed {
+		changed = false
+		for i := range pc {
+			if keep[i] {
+				continue
+			}
+			hit := len(vs[i]) == 0
+			for k := range vs[i] {
+				if live[k] {
+					hit = true
+					break
+				}
+			}
+			if hit {
+				keep[i] = true
+				changed = true
+				for k := range vs[i] {
+					live[k] = true
+				}
+			}
+		}
+	}
+	var out []*Term
+	for i, c := range pc {
+		if keep[i] {
+			out = append(out, c)
+		}
+	}
+	return out
+}
+
+func hasFpAxioms(ts []*Term) bool {
+	seen := map[int]bool{}
+	var rec func(t *Term) bool
+	rec = func(t *Term) bool {
+		if seen[t.ID] {
+			return false
+		}
+		seen[t.ID] = true
+		if t.Op == OpVar && t.Axiom != nil {
+			return true
+		}
+		for _, a := range t.Args {
+			if rec(a) {
+				return true
+			}
+		}
+		return false
+	}
+	for _, t := range ts {
+		if rec(t) {
+			return true
+		}
+	}
+	return false
 }
